@@ -283,7 +283,11 @@ def parse_kani(out):
     parts = re.split(r"^Checking harness (\S+?)\.\.\.\s*$", out, flags=re.M)
     for i in range(1, len(parts), 2):
         h, txt = parts[i].split("::")[-1], parts[i + 1]
-        checks = [(m.group(2), m.group(3), m.group(4), (m.group(5) or "").strip()) for m in CHECK_RE.finditer(txt)]
+        checks = []
+        for blk in re.split(r"^(?=Check \d+: )", txt, flags=re.M):
+            m = re.match(r"Check (\d+): ([^\n]+)\n\s+- Status: (\w+)\n\s+- Description: (.*?)(?:\n\s+- Location: ([^\n]*))?\n\s*(?:\n|$)", blk, re.S)
+            if m:
+                checks.append((m.group(2), m.group(3), m.group(4).strip().strip('"'), (m.group(5) or "").strip()))
         m = re.search(r"\*\* (\d+) of (\d+) failed", txt)
         cov = re.search(r"\*\* (\d+) of (\d+) cover properties satisfied", txt)
         v = re.search(r"^VERIFICATION:- (\w+)", txt, re.M)
